@@ -1232,3 +1232,201 @@ def pp2(m, run):
             raise AnalysisError('%s: interpreter met an unsupported construct: %s' % (key, ex))
         run.ob('PP2.per-point-weight-on-monomial-cells', key, why is None, 'every point is multiplied by its own weight' if why is None else
                'point [i][j] must be multiplied by weight j + i * (points per row); %s' % why, 'geomdl/CPGen.py:%d in %s' % (fi.node.lineno, fi.key))
+
+
+# ====================================================================================== C10: rotation on abstract shapes
+def _abs_shape_for_transform(e, pdim, npts, dim):
+    """element number e of an abstract container: labelled control points, a start point labelled by the element it is evaluated on"""
+    b = Bag('rec:shape', dimension=dim, pdimension=pdim, _elem=e)
+    lab = lambda i, s: Tok('DEF', dep=frozenset([('dom', i, s)]))
+    b._a['domain'] = [(lab(i, 0), lab(i, 1)) for i in range(pdim)] if pdim > 1 else (lab(0, 0), lab(0, 1))
+    b._a['ctrlpts'] = [[Tok('DEF', dep=frozenset([('pt', e, k, c)])) for c in range(dim)] for k in range(npts)]
+    b._a['_asked'] = []
+    b._a['evaluate_single'] = Py(lambda sk, node, prm, _e=e, _b=b: _b._a['_asked'].append(prm) or [Tok('DEF', dep=frozenset([('start', _e, c)])) for c in range(dim)], 'evaluate_single')
+    b._a['__iter__'] = [b]
+    return b
+
+
+def rt2(m, run):
+    """RT2: operations.rotate interpreted (in place) on an abstract container of two shapes with labelled control point coordinates and a
+    start point labelled by the element it was evaluated on: every coordinate of every element depends on the start point of element 0
+    only (one origin for the whole container), the coordinate on the rotation axis depends on itself only, the two others on each other"""
+    fi = m.func('operations.rotate')
+    for pdim in (1, 2, 3):
+        for axis in (0, 1, 2):
+            elems = [_abs_shape_for_transform(e, pdim, 2, 3) for e in range(2)]
+            cont = Bag('rec:container', dimension=3, pdimension=pdim)
+            cont._a['__iter__'] = elems
+            sk = SK(m, dict(STD_ABSTRACTED))
+            key = 'operations.rotate :: container of two %s, axis=%d' % (('curves', 'surfaces', 'volumes')[pdim - 1], axis)
+            why = None
+            try:
+                out = sk.call(fi, [cont, DEF()], {'axis': axis, 'inplace': True})
+                if out is not cont:
+                    why = 'inplace=True does not return the object passed in'
+                for g in elems:
+                    for prm in g._a['_asked']:
+                        got = [sorted(x.dep)[0][1:] if isinstance(x, Tok) and x.dep and len(x.dep) == 1 else None for x in (prm if isinstance(prm, (list, tuple)) else [prm])]
+                        if got != [(i, 0) for i in range(pdim)] or (pdim > 1) != isinstance(prm, (list, tuple)):
+                            why = 'the origin is evaluated at %s; it is the start of the domain of every parametric direction, %s' % (
+                                ['domain[%d][%d]' % x if x else '?' for x in got], ['domain[%d][0]' % i for i in range(pdim)])
+                for e, g in enumerate(elems):
+                    if why:
+                        break
+                    cp = g._a['ctrlpts']
+                    if not isinstance(cp, list) or len(cp) != 2:
+                        why = 'element %d ends with %r control points' % (e, len(cp) if isinstance(cp, list) else cp)
+                        break
+                    for k, pt in enumerate(cp):
+                        if why:
+                            break
+                        if not isinstance(pt, (list, tuple)) or len(pt) != 3:
+                            why = 'element %d point %d has %r coordinates' % (e, k, pt)
+                            break
+                        for c, v in enumerate(pt):
+                            dep = v.dep if isinstance(v, Tok) and v.dep else frozenset()
+                            starts = {l[1] for l in dep if l[0] == 'start'}
+                            own = {l[3] for l in dep if l[0] == 'pt' and l[1] == e and l[2] == k}
+                            foreign = {l for l in dep if l[0] == 'pt' and (l[1] != e or l[2] != k)}
+                            want_own = {c} if c == axis else {0, 1, 2} - {axis}
+                            if starts - {0}:
+                                why = 'element %d is rotated about the start point of element %s; the whole container turns about one origin, the start point of its first element' % (e, sorted(starts - {0}))
+                            elif starts != {0}:
+                                why = 'coordinate %d of element %d point %d does not depend on the rotation origin (translate to the origin / rotate / translate back)' % (c, e, k)
+                            elif foreign:
+                                why = 'coordinate %d of element %d point %d depends on other control points %s' % (c, e, k, sorted(foreign)[:3])
+                            elif own != want_own:
+                                why = 'rotation about axis %d: coordinate %d of a point is computed from its coordinates %s, expected %s' % (axis, c, sorted(own), sorted(want_own))
+                            if why:
+                                break
+            except Violation as v:
+                why = '%s %s' % (v.msg, v.where())
+            except Unsupported as ex:
+                raise AnalysisError('%s: interpreter met an unsupported construct: %s' % (key, ex))
+            run.ob('RT2.rotation-on-abstract-container', key, why is None, 'one origin (start of the first element); axis coordinate kept, the plane coordinates mixed' if why is None else why,
+                   'geomdl/operations.py:%d in operations.rotate' % fi.node.lineno)
+
+
+def rt3(m, run):
+    """RT3: operations.rotate interpreted (in place) on a shape whose control point coordinates, start point and angle are symbolic
+    atoms; polynomial arithmetic is exact, cos / sin / radians are atoms.  Every resulting coordinate is o + M (p - o) with o the start
+    point, M built from cos(radians(angle)) and sin(radians(angle)) only, M M^T = I modulo cos^2 + sin^2 = 1, det M = 1, and the
+    axis row and column of M those of the identity."""
+    from .poly import Poly
+    from .skel import Sym
+    fi = m.func('operations.rotate')
+    for axis in (0, 1, 2):
+        b = Bag('rec:shape', dimension=3, pdimension=1)
+        b._a['domain'] = [DEF(), DEF()]
+        b._a['ctrlpts'] = [[Sym('p%d_%d' % (k, c)) for c in range(3)] for k in range(2)]
+        b._a['evaluate_single'] = Py(lambda sk, node, prm: [Sym('o%d' % c) for c in range(3)], 'evaluate_single')
+        b._a['__iter__'] = [b]
+        sk = SK(m, dict(STD_ABSTRACTED))
+        key = 'operations.rotate :: axis=%d' % axis
+        why = None
+        mtxt = ''
+        try:
+            sk.call(fi, [b, Sym('alpha')], {'axis': axis, 'inplace': True})
+            cp = b._a['ctrlpts']
+            Cn, Sn = 'cos(radians(alpha))', 'sin(radians(alpha))'
+            rel = [(Cn, 2, Poly.const(1) - Poly.atom(Sn) * Poly.atom(Sn))]
+            Ms = []
+            for k, pt in enumerate(cp):
+                if not isinstance(pt, (list, tuple)) or len(pt) != 3 or not all(isinstance(v, Sym) for v in pt):
+                    why = 'point %d is %r after the rotation: not an exact polynomial map of the input coordinates' % (k, pt)
+                    break
+                M = []
+                for c, v in enumerate(pt):
+                    q = v.p
+                    for j in range(3):
+                        q = q.subs('p%d_%d' % (k, j), Poly.atom('o%d' % j) + Poly.atom('d%d' % j))
+                    q = q - Poly.atom('o%d' % c)
+                    row = []
+                    rest = q
+                    for j in range(3):
+                        cf = q.coeff_of('d%d' % j)
+                        row.append(cf if cf is not None else Poly())
+                        rest = rest.without('d%d' % j)
+                    if rest != Poly():
+                        why = 'coordinate %d of point %d is not o + M (p - o) with o the start point: remainder %r' % (c, k, rest)
+                        break
+                    extra = {a for cf in row for a in cf.atoms()} - {Cn, Sn}
+                    if extra:
+                        why = 'the matrix entries involve %s; they are built from cos and sin of radians(angle) only' % sorted(extra)
+                        break
+                    M.append(row)
+                if why:
+                    break
+                Ms.append(M)
+            if not why:
+                M = Ms[0]
+                mtxt = '[' + '; '.join(', '.join(repr(x) for x in row) for row in M) + ']'
+                if any(Mk != M for Mk in Ms[1:]):
+                    why = 'different points are mapped with different matrices'
+                else:
+                    orth = all(sum((M[a][j] * M[b_][j] for j in range(3)), Poly()).reduce(rel) == (Poly.const(1) if a == b_ else Poly()) for a in range(3) for b_ in range(3))
+                    det = (M[0][0] * (M[1][1] * M[2][2] - M[1][2] * M[2][1]) - M[0][1] * (M[1][0] * M[2][2] - M[1][2] * M[2][0])
+                           + M[0][2] * (M[1][0] * M[2][1] - M[1][1] * M[2][0])).reduce(rel)
+                    one, zero = Poly.const(1), Poly()
+                    fix = all(M[axis][j] == (one if j == axis else zero) for j in range(3)) and all(M[j][axis] == (one if j == axis else zero) for j in range(3))
+                    ident = all(M[a][b_] == (one if a == b_ else zero) for a in range(3) for b_ in range(3))
+                    if not orth:
+                        why = 'matrix %s is not orthogonal: the map distorts the shape' % mtxt
+                    elif det != one:
+                        why = 'det M = %r for M = %s (a reflection or a scaling)' % (det, mtxt)
+                    elif not fix:
+                        why = 'rotation about axis %d changes / uses coordinate %d: M = %s' % (axis, axis, mtxt)
+                    elif ident:
+                        why = 'the map is the identity'
+        except Violation as v:
+            why = '%s %s' % (v.msg, v.where())
+        except Unsupported as ex:
+            raise AnalysisError('%s: interpreter met an unsupported construct: %s' % (key, ex))
+        run.ob('RT3.rotation-is-exact-rigid-map', key, why is None, 'p -> o + M (p - o), M = %s orthogonal with det 1, axis fixed' % mtxt if why is None else why,
+               'geomdl/operations.py:%d in operations.rotate' % fi.node.lineno)
+
+
+def tr3(m, run):
+    """TR3: operations.translate / operations.scale interpreted (in place) on a container of two shapes with symbolic coordinates: every
+    coordinate c of every point becomes exactly p_c + vec_c, respectively p_c * multiplier"""
+    from .poly import Poly
+    from .skel import Sym
+    for name, arg, want, doc in (('translate', [Sym('v%d' % c) for c in range(3)], lambda p, c: p + Poly.atom('v%d' % c), 'p[c] + vec[c]'),
+                                 ('scale', Sym('s'), lambda p, c: p * Poly.atom('s'), 'p[c] * multiplier')):
+        fi = m.func('operations.' + name)
+        elems = []
+        for e in range(2):
+            b = Bag('rec:shape', dimension=3, pdimension=1, ctrlpts_size=2)
+            b._a['ctrlpts'] = [[Sym('p%d_%d_%d' % (e, k, c)) for c in range(3)] for k in range(2)]
+            b._a['__iter__'] = [b]
+            elems.append(b)
+        cont = Bag('rec:container', dimension=3, pdimension=1)
+        cont._a['__iter__'] = elems
+        sk = SK(m, dict(STD_ABSTRACTED))
+        key = 'operations.%s :: container of two shapes' % name
+        why = None
+        try:
+            sk.call(fi, [cont, arg], {'inplace': True})
+            for e, g in enumerate(elems):
+                cp = g._a['ctrlpts']
+                if not isinstance(cp, list) or len(cp) != 2:
+                    why = 'element %d ends with %r control points' % (e, cp)
+                    break
+                for k, pt in enumerate(cp):
+                    if not isinstance(pt, (list, tuple)) or len(pt) != 3:
+                        why = 'element %d point %d is %r' % (e, k, pt)
+                        break
+                    for c, v in enumerate(pt):
+                        w = want(Poly.atom('p%d_%d_%d' % (e, k, c)), c)
+                        if not isinstance(v, Sym) or v.p != w:
+                            why = 'coordinate %d of element %d point %d becomes %r, expected %r' % (c, e, k, v, w)
+                            break
+                    if why:
+                        break
+                if why:
+                    break
+        except Violation as v:
+            why = '%s %s' % (v.msg, v.where())
+        except Unsupported as ex:
+            raise AnalysisError('%s: interpreter met an unsupported construct: %s' % (key, ex))
+        run.ob('TR3.transform-is-exact-map', key, why is None, 'every coordinate becomes ' + doc if why is None else why, 'geomdl/operations.py:%d in %s' % (fi.node.lineno, fi.key))
